@@ -72,6 +72,8 @@ def witness_search(tier, seed):
     esc = "dr\\ums:k;i//ck"
     texts.append("#VERSION:0.83;#TITLE:t;" + str(MSDParameter(("NOTEDATA", ""))) + str(MSDParameter(("CREDIT", esc))) + str(MSDParameter(("NOTES", "0000\n" + esc))) + "\n")
     texts.append("#TITLE:t;#SUBTITLE" + str(MSDParameter(("X", esc)))[2:] + str(MSDParameter(("NOTES", "dance-single", "d", "Easy", "1", "0,0,0,0,0", "0000\n" + esc))) + "\n")
+    texts.append("#TITLE:a;\r\n#BGCHANGES:1=x\r\n,2=y;\r\n#SUBTITLE:cr\ronly;\r\n#NOTES:dance-single:d:Easy:1:0,0,0,0,0:\r\n0000\r\n0000\r\n;\r\n")
+    texts.append("#VERSION:0.83;\r\n#TITLE:a;\r\n#BGCHANGES:1=x\r\n,2=y;\r\n#NOTEDATA:;\r\n#CREDIT:two\r\nlines;\r\n#NOTES:0000\r\n0000\r\n;\r\n")
     for path in sorted(glob.glob("/repo/testdata/**/*.s*", recursive=True)):
         try:
             texts.append(open(path, encoding="utf-8").read())
@@ -126,3 +128,8 @@ def witness_search(tier, seed):
 
 from pyvc.xcheck import MsdTextProbe   # noqa: E402
 THOROUGH_BOUNDED = [MsdTextProbe()]
+
+
+# supplier units (see props/suppliers.py): load -> save -> load goes through every loader and through __str__
+from props import suppliers as _S   # noqa: E402
+UNITS = _S.extend(UNITS, _S.loaders(), _S.serializers())
